@@ -403,6 +403,7 @@ class Summary:
         self.loops = {}       # loop_id -> {"vars": {name: (init, update)}, "node": .., "exits": [..]}
         self.closures = {}
         self.env_end = None
+        self.mut_out = {}     # `&mut` parameter name -> its value when the function returns (only if it is changed)
         self.unresolved = []  # constructs the evaluator could not interpret
 
     def sites_to(self, *suffixes, deep=False):
@@ -445,10 +446,15 @@ def assume(t, pc):
     facts = []
     for c in pc:
         if c[0] == "if":
-            x, pol = c[1], c[2]
-            while x[0] == "not":
-                x, pol = x[1], not pol
-            facts.append((x, pol))
+            stack = [(c[1], c[2])]
+            while stack:
+                x, pol = stack.pop()
+                while x[0] == "not":
+                    x, pol = x[1], not pol
+                facts.append((x, pol))
+                if x[0] == "bin" and ((x[1] == "&&" and pol) or (x[1] == "||" and not pol)):
+                    stack.append((x[2], pol))
+                    stack.append((x[3], pol))
     if not facts:
         return t
     memo = {}
@@ -513,6 +519,26 @@ def ret_term(returns):
     return acc
 
 
+def ret_term_full(returns):
+    """Like ret_term, but the exits taken by `?` are part of the value: None / Err(e) when the tested value is not Some / Ok."""
+    import norm
+    rs = []
+    for r in returns:
+        if r[5] != "try":
+            rs.append(r)
+            continue
+        v, pc, may, must, node, kind = r
+        is_res = "Result<" in str((node or {}).get("e", {}).get("ty", "")) if isinstance(node, dict) else True
+        if is_res:
+            val = ("ctor", "std::prelude::v1::Err", (("proj", v, "std::prelude::v1::Err", 0),))
+            test = ("matches", v, norm.OK_DESC)
+        else:
+            val = ("ctor", "std::prelude::v1::None", ())
+            test = ("matches", v, norm.SOME_DESC)
+        rs.append((val, tuple(pc) + (("if", test, False, None),), may, must, node, "return"))
+    return ret_term(rs)
+
+
 class Engine:
     """Memoising interprocedural driver. `hooks`: object with optional methods
        on_site(ev, site)  -- may modify ev.st.may / ev.st.must
@@ -570,6 +596,8 @@ class Evaluator:
         self._fold_memo = {}
         self.summ = Summary(fn)
         self.st = None
+        self.mut_params = {}
+        self.mut_exits = {}
         self.pc = []              # path condition stack
         self._pc_marks = []
         self.loop_stack = []      # (loop_id, break_states, continue_states, label)
@@ -588,7 +616,15 @@ class Evaluator:
             self._ret(v, self.fn.body, "tail")
         self._normalize()
         import norm
-        self.summ.ret = norm.Normalizer()(ret_term([r for r in self.summ.returns if r[5] != "try"]))
+        nz = norm.Normalizer()
+        self.summ.ret = nz(ret_term([r for r in self.summ.returns if r[5] != "try"]))
+        self.summ.ret_full = nz(ret_term_full(self.summ.returns)) if any(r[5] == "try" for r in self.summ.returns) else self.summ.ret
+        # final value of every `&mut` parameter (as a function of the parameters), for callers that inline this function
+        self.summ.mut_out = {}
+        for name, exits in self.mut_exits.items():
+            ex = [(nz(t), nz.pc(pc), a, b, n_, k) for (t, pc, a, b, n_, k) in exits if k != "try"]
+            if ex and any(e[0] != ("param", name) for e in ex):
+                self.summ.mut_out[name] = nz(ret_term(ex))
         return self.summ
 
     def _normalize(self):
@@ -611,6 +647,11 @@ class Evaluator:
 
     def _close_returns(self, start, close):
         """A `return` inside a loop yields the value of its variables at *some* iteration: the loop iterate (mu)."""
+        for name, exits in self.mut_exits.items():
+            for i in range(len(exits)):
+                t, pc, a, b, n_, k = exits[i]
+                if contains(t, lambda s_: s_[0] == "loopvar"):
+                    exits[i] = (close(t), pc, a, b, n_, k)
         rs = self.summ.returns
         for i in range(start, len(rs)):
             t, pc, may, must, node, kind = rs[i]
@@ -629,6 +670,11 @@ class Evaluator:
         return norm.Normalizer()(partial.simplify(t, self._fold_memo))
 
     def _bind_param(self, p, env):
+        if p.get("k") == "bind":
+            i = self.fn.params.index(p) if p in self.fn.params else -1
+            ty = self.fn.param_tys[i] if 0 <= i < len(self.fn.param_tys or []) else ""
+            if str(ty).startswith("&mut"):
+                self.mut_params[p["lid"]] = p["name"]
         if p.get("k") == "bind" and p["name"] in self.bindings:
             env[p["lid"]] = self.bindings[p["name"]]
         elif p.get("k") == "bind":
@@ -640,6 +686,9 @@ class Evaluator:
 
     def _ret(self, term, node, kind):
         self.summ.returns.append((term, tuple(self.pc), self.st.may, self.st.must, node, kind))
+        # what the exit leaves behind in the `&mut` parameters
+        for lid, name in self.mut_params.items():
+            self.mut_exits.setdefault(name, []).append((self.st.env.get(lid, ("param", name)), tuple(self.pc), None, None, node, kind))
 
     def _site(self, **kw):
         key = (kw.get("kind"), kw.get("callee") or kw.get("name"))
@@ -820,9 +869,11 @@ class Evaluator:
         # a diverging branch makes the other branch's condition known for the rest of the enclosing block
         if ts is None and es is not None:
             self.pc.append(("if", c, False, n["id"]))
+            self._learn(c, False)
             return ev
         if es is None and ts is not None:
             self.pc.append(("if", c, True, n["id"]))
+            self._learn(c, True)
             return tv
         if ts is None and es is None:
             return NEVER
@@ -1113,6 +1164,7 @@ class Evaluator:
                           ty=n.get("ty"))
         # `&mut x` arguments and `&mut self` receivers may be mutated by the callee
         term = None
+        inlined_cs, inlined_mapping = None, None
         target = self.local_callee(callee) if callee else None
         if target is not None and not target.derived:
             opaque = not self.eng.inline
@@ -1139,9 +1191,10 @@ class Evaluator:
                         nm = p.get("name") if p.get("k") == "bind" else f"#{i}"
                         if i < len(args):
                             mapping[nm] = args[i]
-                    term = subst(cs.ret, mapping)
+                    term = subst(getattr(cs, "ret_full", None) or cs.ret, mapping)
                     self._import_sites(cs, mapping)
                     term = self.beta(term)
+                    inlined_cs, inlined_mapping = cs, mapping
             else:
                 term = ("call", target.path, tuple(args))
         if term is None:
@@ -1167,6 +1220,18 @@ class Evaluator:
                 r = self.root_local(an)
                 if r and r[0] in self.st.env:
                     old = self.st.env[r[0]]
+                    if inlined_cs is not None and target is not None and i < len(target.params) and target.params[i].get("k") == "bind":
+                        # the callee was inlined: its own account of what it leaves in this parameter
+                        pname = target.params[i]["name"]
+                        out = getattr(inlined_cs, "mut_out", {}).get(pname)
+                        if out is None:
+                            continue              # the callee does not change it
+                        newv = self.beta(subst(out, inlined_mapping))
+                        if not r[2]:
+                            self.st.env[r[0]] = newv
+                        else:
+                            self.st.env[r[0]] = ("mut", old, ("assign", ".".join(r[2]), newv), r[2])
+                        continue
                     self.st.env[r[0]] = ("mut", old, ("call", callee, tuple(a for j, a in enumerate(args) if j != i)), r[2])
         if n.get("ty") == "!":
             self.st = None
@@ -1521,6 +1586,24 @@ class Evaluator:
                 return f
         return self.loop_stack[-1] if self.loop_stack else None
 
+    def _learn(self, c, pol):
+        """A branch diverged: the condition is known for the rest of the block; values that were merged under it collapse."""
+        if self.st is None:
+            return
+        import norm
+        nz = self._learn_nz = getattr(self, "_learn_nz", None) or norm.Normalizer()
+        fact = nz(c)
+        while fact[0] == "not":
+            fact, pol = fact[1], not pol
+        if fact[0] in ("lit",):
+            return
+        pcs = [("if", fact, pol)]
+        for lid, v in list(self.st.env.items()):
+            if isinstance(v, tuple) and v and v[0] in ("ite", "mut", "field") and contains(v, lambda s_: s_[0] == "ite"):
+                v2 = assume(nz(v), pcs)
+                if v2 != v:
+                    self.st.env[lid] = v2
+
     def _pc_push(self, c):
         self._pc_marks.append(len(self.pc))
         self.pc.append(c)
@@ -1537,6 +1620,10 @@ class Evaluator:
         self._site(node=n, kind="try", name="?", args=[v], argnodes=[n["e"]], ty=ty)
         if not self.closure_stack:
             self.summ.returns.append((v, tuple(self.pc), self.st.may, self.st.must, n, "try"))
+            import norm as _norm
+            test = ("matches", v, _norm.OK_DESC if is_res else _norm.SOME_DESC)
+            for lid, name in self.mut_params.items():
+                self.mut_exits.setdefault(name, []).append((self.st.env.get(lid, ("param", name)), tuple(self.pc) + (("if", test, False, n["id"]),), None, None, n, "return"))
         # the rest of the enclosing block is only reached when the value was Ok / Some
         import norm
         self.pc.append(("if", ("matches", v, norm.OK_DESC if is_res else norm.SOME_DESC), True, n["id"], "try"))
